@@ -1,0 +1,12 @@
+//go:build verif && linux
+
+package clocks
+
+import "time"
+
+// VerifF64PDrift evaluates (*SystemClock).Drift for a clock whose drift field is the given
+// float64 (NewSystemClock only produces values of the form time.Duration.Seconds()).
+func VerifF64PDrift(drift float64, duration time.Duration) time.Duration {
+	c := &SystemClock{drift: drift}
+	return c.Drift(duration)
+}
